@@ -55,6 +55,7 @@ type Unit struct {
 	headCounter map[int]int
 	loopOrdOf   map[ast.Node]int
 	nLoops      int
+	loopPre     map[int]*State
 }
 
 type Exit struct {
@@ -297,7 +298,10 @@ func (u *Unit) bufData(st *State, b Value) Value {
 func (u *Unit) bufCh(st *State, b Value) *Term { return Select(u.fld(st, b.Elem, "ch"), b.Term) }
 func (u *Unit) bufBD(st *State, b Value) *Term {
 	if c, ok := u.bdKnown[b.Term.String()]; ok {
-		return c
+		// the known constant describes the entry state only
+		if arr := u.fld(st, b.Elem, "bd"); arr == u.initMem["bd:"+elemKey(b.Elem)] {
+			return c
+		}
 	}
 	return Select(u.fld(st, b.Elem, "bd"), b.Term)
 }
